@@ -277,7 +277,8 @@ def execute(case):
             shutil.rmtree(sub, ignore_errors=True)
     return {'violations': viol, 'digest': log.digest(), 'probes': probes, 'faults': faults, 'evals': len(sigs) + 1, 'sigs': sigs,
             'steps': steps, 'sim_time': sim_time, 'nontrivial': any(s[1] for s in sigs), 'vacuous': vacuous,
-            'extra': {'distinct_crash_sites': len(first_idx), 'crash_points_in_map': len(crossings), 'fault_plans_run': len(sigs)}}
+            'extra': {'crash_points_in_map': len(crossings), 'fault_plans_run': len(sigs)},
+            'sets': {'crash_sites_function_line': [f'{a}:{b}' for (a, b) in first_idx], 'kill_points_function_line_occurrence': [f"{pl_['func']}:{pl_['line']}:{pl_['occ']}" for pl_ in plans if pl_['kind'] == 'crash']}}
 
 
 def narrow(case, violation):
